@@ -14,7 +14,9 @@ from electrumx.server.controller import Notifications        # noqa: E402
 
 PROPERTY = 'C20'
 LEVEL = 'exploration'
-RULE = ('Environment automaton (daemon gains blocks / forks; block processor polls, advances '
+RULE = ('Environment automaton (daemon gains blocks / forks / loses its top 1-2 blocks once, with no '
+        'refresh in flight, after which the index is ahead on a stale tip until the daemon is higher '
+        'again or a reorg is forced; block processor polls, advances '
         'with optional intermediate full flush, detects forks, is forced to reorg, backs out '
         'block by block, reports on every idle poll; mempool tracker arms at an instant where '
         'flushed height = daemon height and delivers any time later; start once after the first '
@@ -26,7 +28,8 @@ RULE = ('Environment automaton (daemon gains blocks / forks; block processor pol
         'latest report both carry the daemon\'s current height, every token handed over after start is contained in a notification issued '
         'at or after its hand-over. Non-trivial = trace has a delivery at a height the block '
         'processor never reported, or two reports at one height before the matching delivery, or a '
-        'height decrease. distinct = distinct move sequences (complete DFS paths / walks).')
+        'height decrease (index or daemon). distinct = distinct move sequences (complete DFS paths / '
+        'walks).')
 ASSUMPTIONS = ['the automaton of DESIGN.md Appendix A is not larger than the real system '
                '(each violating pattern it produced during development was reproduced in the '
                'whole-system harness; see DESIGN.md)',
@@ -37,6 +40,7 @@ BUDGET_S = {'quick': 100, 'thorough': 3000}
 H0 = 5
 HMAX = H0 + 3
 HMIN = H0 - 2
+MAX_DOWNS = 1
 
 
 def shards(tier):
@@ -58,7 +62,8 @@ class Env:
     __slots__ = ('n', 'D', 'S', 'd', 'P', 'bp', 'rn', 'pend', 'caught_up', 'mp', 'started',
                  'fork', 'delivered', 'must_start', 'blocktok', 'tok', 'calls', 'owed',
                  'seen_mp', 'seen_bp', 'last_m', 'last_b', 'error', 'flags', 'reported',
-                 'unmatched_reports', 'in_start', 'epoch', 'mp_epoch', 'last_m_epoch', 'last_call')
+                 'unmatched_reports', 'in_start', 'epoch', 'mp_epoch', 'last_m_epoch', 'last_call',
+                 'downs')
 
     def __init__(self, warm=True):
         self.n = Notifications()
@@ -82,6 +87,7 @@ class Env:
         self.blocktok = {}
         self.pend = set()
         self.fork = 0
+        self.downs = 0
         self.rn = 0
         self.mp = None
         if warm:
@@ -110,7 +116,7 @@ class Env:
         e.n = n
         for a in ('D', 'S', 'd', 'P', 'bp', 'rn', 'caught_up', 'mp', 'started', 'fork',
                   'delivered', 'must_start', 'tok', 'calls', 'last_m', 'last_b', 'error',
-                  'flags', 'in_start', 'epoch', 'mp_epoch', 'last_m_epoch', 'last_call'):
+                  'flags', 'in_start', 'epoch', 'mp_epoch', 'last_m_epoch', 'last_call', 'downs'):
             setattr(e, a, getattr(self, a))
         e.pend = set(self.pend)
         e.blocktok = dict(self.blocktok)
@@ -214,9 +220,18 @@ class Env:
             for r in (1, 2):
                 if self.S - r >= HMIN and max(self.D, self.S) + 1 <= HMAX:
                     out.append(('fork', r))
+            # the daemon's best chain loses its top k blocks (invalidateblock, or a switch to a
+            # branch with more work and fewer blocks): the index is now k blocks ahead on a stale
+            # tip and cannot notice until the daemon is higher again or the operator forces a reorg
+            # (explored only with no refresh in flight: see DESIGN.md section 11, "not explored")
+            if self.downs < MAX_DOWNS and self.D == self.S == self.d and self.bp == 'idle' \
+                    and self.mp is None and self.started:
+                for k in (1, 2):
+                    if self.D - k >= HMIN:
+                        out.append(('down', k))
         if self.bp in ('idle', 'work'):
             out.append(('poll',))
-            if self.caught_up and self.fork == 0:
+            if self.caught_up and (self.fork == 0 or self.D <= self.S):
                 for n in (1, 2):
                     if self.S - n >= HMIN:
                         out.append(('force', n))
@@ -251,9 +266,15 @@ class Env:
         elif kind == 'fork':
             self.fork = mv[1]
             self.D = max(self.D, self.S) + 1
+        elif kind == 'down':
+            self.D -= mv[1]
+            self.fork = self.S - self.D
+            self.downs += 1
+            self.flags |= 8
         elif kind == 'poll':
             self.P = self.D
-            self.bp = 'work' if (self.D > self.S or self.fork) else 'pending'
+            # (a fork is noticed only through a block fetched above the index's tip)
+            self.bp = 'work' if self.D > self.S else 'pending'
         elif kind == 'advance':
             self.S += 1
             toks = {self.fresh()}
@@ -278,6 +299,8 @@ class Env:
             self.S -= 1
             self.d = self.S
             self.flags |= 4
+            if self.fork:
+                self.fork -= 1
             if self.caught_up:
                 self.pend |= toks
             self.rn -= 1
@@ -403,7 +426,7 @@ def run_dfs(ctx, warm, depth):
     ctx.classes[f'dfs.{label}.nontrivial_paths'] += stats['nontrivial']
     for fl, n in stats['flags'].items():
         for bit, name in ((1, 'delivery_at_unreported_height'), (2, 'two_reports_before_delivery'),
-                          (4, 'height_decrease')):
+                          (4, 'height_decrease'), (8, 'daemon_height_decrease')):
             if fl & bit:
                 ctx.classes[f'dfs.{name}'] += n
     for s in stats['samples']:
@@ -424,7 +447,8 @@ def walk_body(ctx):
         env, applied = run_trace(choices, warm)
         classes = ['walk']
         for bit, name in ((1, 'walk.delivery_at_unreported_height'),
-                          (2, 'walk.two_reports_before_delivery'), (4, 'walk.height_decrease')):
+                          (2, 'walk.two_reports_before_delivery'), (4, 'walk.height_decrease'),
+                          (8, 'walk.daemon_height_decrease')):
             if env.flags & bit:
                 classes.append(name)
         ctx.record(case={'warm': warm, 'moves': applied}, nontrivial=env.flags != 0,
